@@ -26,7 +26,9 @@
 //
 // mutation classes: rver b:k nil|bump|root, rdrop b:k, radd b:k, wval b:k v, wdrop b:k, wadd b:k v, wperm, args <prog>,
 // method, contract, limit, fee, nofee, evt, evdrop, noreq, same; token side: xroute [j], xamt [j], xdecl, xboth [j], xswap,
-// idrop [j], iswap, iadd, isub [j], inreal [j], ishort [j] (see mutate in exec.go).
+// idrop [j], iswap, iadd, isub [j], inreal [j], ishort [j]; multiset mutations by position (0-based; for the write set the
+// positions of the list TxOutputsExt, transient entries included): wdup i j, wswap i j, wdd i j, wcopy j, rdup i j, rswap i j,
+// rdd i j, rcopy j, xdup i j, xdupb i j, idup i j, evdup i j, evswap i j (see mutate in exec.go).
 //
 // impl-side oracle (exec.go): (a) the transaction assembled from a successful pre-execution is accepted against the same
 // state, and by the block path; (b) after acceptance exactly the keys of the write set changed, to exactly the declared
@@ -199,7 +201,63 @@ func (g *Gen) xfer() string {
 	return st
 }
 
+// progMulti: a call that writes at least two keys (puts, deletes, data-flow writes, in the caller's and the callee's
+// bucket), often with two payments and two events: the write set, the declared contract outputs and the declared events
+// are then lists of several entries (what the multiset mutations wdup / wswap / wdd / xdup / evdup ... need).
+func (g *Gen) progMulti() string {
+	g.xfs = nil
+	perm := []int{0, 1, 2, 3, 4, 5}
+	for i := len(perm) - 1; i > 0; i-- {
+		j := g.r.Intn(i + 1)
+		perm[i], perm[j] = perm[j], perm[i]
+	}
+	nw := 2 + g.r.Intn(3)
+	var ss, sub []string
+	for i := 0; i < nw; i++ {
+		k := fmt.Sprintf("k%d", perm[i])
+		var st string
+		switch g.r.Intn(6) {
+		case 0:
+			st = "del " + k
+		case 1:
+			st = fmt.Sprintf("copy %s %s", g.key(), k)
+		default:
+			st = fmt.Sprintf("put %s %d", k, 2+g.r.Intn(8))
+		}
+		if g.r.Chance(1, 3) {
+			sub = append(sub, st)
+		} else {
+			ss = append(ss, st)
+		}
+	}
+	if len(sub) > 0 {
+		ss = append(ss, "call "+strings.Join(sub, ","))
+	}
+	if g.r.Chance(1, 2) {
+		ss = append(ss, g.xfer())
+		if g.r.Chance(2, 3) {
+			ss = append(ss, g.xfer())
+		}
+	}
+	if g.r.Chance(1, 3) {
+		e := g.r.Intn(5)
+		ss = append(ss, fmt.Sprintf("ev %d", e), fmt.Sprintf("ev %d", (e+1+g.r.Intn(4))%5))
+	}
+	if g.r.Chance(1, 4) {
+		ss = append(ss, "get "+g.key())
+	}
+	// the steps in a random order (a callee's writes land in its own bucket wherever the call stands)
+	for i := len(ss) - 1; i > 0; i-- {
+		j := g.r.Intn(i + 1)
+		ss[i], ss[j] = ss[j], ss[i]
+	}
+	return strings.Join(ss, ";")
+}
+
 func (g *Gen) prog() string {
+	if g.r.Chance(1, 4) {
+		return g.progMulti()
+	}
 	n := 1 + g.r.Intn(6)
 	nx := 0
 	g.xfs = nil
@@ -321,6 +379,70 @@ func (g *Gen) mutants(slot string) {
 	}
 	if r.Chance(1, 4) {
 		add("same")
+	}
+	// multiset mutations that keep the length: of the declared write set (the list TxOutputsExt: the transient entries
+	// of the token side and of the events first, then the stored writes of the buckets), of the declared read set, and of
+	// the lists inside the transient entries (declared contract outputs / inputs / events)
+	two := func(lo, hi int) (int, int) { // two different positions in [lo, hi)
+		i := lo + r.Intn(hi-lo)
+		j := lo + r.Intn(hi-lo-1)
+		if j >= i {
+			j++
+		}
+		return i, j
+	}
+	n := len(p.Tx.TxOutputsExt)
+	nT := n - len(p.W)
+	if len(p.W) >= 2 {
+		// among the stored writes
+		i, j := two(nT, n)
+		add("wdup %d %d", i, j)
+		i, j = two(nT, n)
+		add([]string{"wdd %d %d", "wswap %d %d", "wdup %d %d"}[r.Intn(3)], i, j)
+	}
+	if n >= 2 && nT >= 1 {
+		// a transient entry involved: copied over a stored write or over another transient entry, replaced by a copy of
+		// a stored write, swapped with one
+		i, j := r.Intn(nT), 0
+		if nT < n && r.Chance(2, 3) {
+			j = nT + r.Intn(n-nT)
+		} else {
+			_, j = two(0, n)
+			if j == i {
+				j = (i + 1) % n
+			}
+		}
+		if r.Bool() {
+			i, j = j, i
+		}
+		add([]string{"wdup %d %d", "wdup %d %d", "wdd %d %d", "wswap %d %d"}[r.Intn(4)], i, j)
+	}
+	if n >= 1 && r.Chance(1, 2) {
+		add("wcopy %d", r.Intn(n))
+	}
+	if len(p.R) >= 2 {
+		i, j := two(0, len(p.R))
+		add("rdup %d %d", i, j)
+		i, j = two(0, len(p.R))
+		add([]string{"rswap %d %d", "rdd %d %d", "rdup %d %d"}[r.Intn(3)], i, j)
+		if r.Chance(1, 3) {
+			add("rcopy %d", r.Intn(len(p.R)))
+		}
+	}
+	if len(p.X) >= 2 {
+		i, j := two(0, len(p.X))
+		if p.X[i] == p.X[j] {
+			i, j = two(0, len(p.X))
+		}
+		add([]string{"xdup %d %d", "xdupb %d %d"}[r.Intn(2)], i, j)
+	}
+	if len(p.I) >= 2 && r.Chance(1, 2) {
+		i, j := two(0, len(p.I))
+		add("idup %d %d", i, j)
+	}
+	if len(p.E) >= 2 {
+		i, j := two(0, len(p.E))
+		add([]string{"evdup %d %d", "evswap %d %d"}[r.Intn(2)], i, j)
 	}
 	for _, m := range ms {
 		g.do("mut " + slot + " " + m)
@@ -481,7 +603,7 @@ func main() {
 	if n == 0 {
 		n = 500
 		if args.Tier == "thorough" {
-			n = 6500
+			n = 5500 // ~36 mutants per pre-execution since the multiset mutations were added: keeps the tier below 20 min
 		}
 	}
 	g := &Gen{r: xvlib.NewRng(args.Seed*1000003 + 909), e: ex, out: out}
@@ -498,7 +620,7 @@ func main() {
 	}
 	out.Stats.Rule = fmt.Sprintf("%d generated histories of 5-9 steps on a no-fee or fee chain; a step pre-executes a random program of 1-6 calls "+
 		"(get/put/del/scan with bounds and early stop/copy/cnt/transfer/event/burn/fail/err/nested call) of the test kernel contract over 6 keys in 2 buckets "+
-		"through the real Chain.PreExec, tries 8-20 single mutations of the assembled transaction (read set, write set, request, limits, fee, contract transfers, events) "+
+		"through the real Chain.PreExec (every fourth program writes 2-4 keys in both buckets, often with two payments and two events), tries 8-30 mutations of the assembled transaction (read set, write set, request, limits, fee, contract transfers, events: single-entry mutations, and multiset mutations that keep the length of the declared write set - the list TxOutputsExt, transient entries included -, of the read set, of the declared contract outputs / inputs / events: an entry replaced by a copy of another, two swapped, one dropped + a copy appended) "+
 		"through VerifyTx+DoTx and (every %d-th and every accepted one) through a block played by a replica, then commits it through Chain.SubmitTx; "+
 		"pairs of pre-executions over the same state are committed one after the other (stale reads); blocks are mined in between; a fresh replica replays all blocks at the end. "+
 		"Non-trivial = at least 2 accepted transactions, one with key writes; distinct by full op list", n, ex.blockEvery)
